@@ -250,8 +250,57 @@ def _only_excluded_arms(f, start, call_bb, escaping_returns):
     return False
 
 
+def no_pseudo_join(P, res, rule="NO-PSEUDO-JOIN"):
+    """the type reported for a construct with several branches is a join of the branch types (unify / unify_all) or a type
+    given from outside (the expected type) -- never one of the branch types picked by asking is_subtype: that is a join only
+    when the branches are comparable (`Ok(1)` / `Err("x")` are not, and the `then` type would be reported for both)."""
+    INF = ("check_block", "infer_block", "check_expr", "infer_expr", "check_expr_", "infer_expr_", "check_match", "infer_match")
+    n = 0
+    for p_, f in sorted(P.funcs.items()):
+        if not p_.startswith("checks::type_checker::") or p_.split("::{closure")[0] in UNIFIERS:
+            continue
+        for sw in D.bool_switches(f):
+            r = sw["root"]
+            if r[0] != "call" or not (M.callee_name(r[2]) or "").endswith("garden_type::is_subtype"):
+                continue
+            srcs = []
+            for a in r[2]["args"]:
+                rr = f.root_of(a, through_named=True)
+                if rr[0] == "call" and (M.callee_name(rr[2]) or "").split("::")[-1] in INF:
+                    srcs.append(rr[2]["dest"]["l"])
+            if len(srcs) != 2 or srcs[0] == srcs[1]:
+                continue
+            n += 1
+            # inside the two branches of the test, is a branch type moved (or cloned) into the construct's result, rather than only
+            # borrowed for a message?
+            region = set()
+            for e_ in (sw["true"], sw["false"]):
+                if e_ is not None:
+                    region |= D.edge_dominated(f, sw["bb"], e_)
+            picked = False
+            for b in region:
+                for st in f.blocks[b]["stmts"]:
+                    if st.get("s") == "assign" and st["rv"]["k"] == "use":
+                        q = st["rv"]["a"].get("move") or st["rv"]["a"].get("copy")
+                        if q is not None and not q["p"] and q["l"] in srcs:
+                            picked = True
+                t_ = f.blocks[b]["term"]
+                if t_["t"] == "call" and (M.callee_name(t_) or "").endswith("::clone") and t_["args"]:
+                    rr = f.root_of(t_["args"][0], through_named=True)
+                    if rr[0] == "call" and rr[2]["dest"]["l"] in srcs and "Type" in f.local_ty(t_["dest"]["l"]):
+                        picked = True
+            key = "%s # is_subtype between two branch types # %s" % (p_, D.arm_label(f, sw["bb"], enums={"Expression_", "BinaryOperatorKind"}) or "-")
+            if picked:
+                res.bad(rule, key, "%s compares the types of two branches with is_subtype and returns one of them: for branches that are not comparable the "
+                        "reported type does not cover the other branch" % p_.split("::")[-1], f.loc(r[2].get("span")))
+            else:
+                res.ok(rule, key + ": used for a diagnostic only, the result does not depend on it")
+    res.extra["is_subtype_between_branch_types"] = n
+
+
 def run(ctx, res):
     sh = ctx.shape
+    no_pseudo_join(ctx.P, res)
     fn = S.find_fn(sh, FILE, "unify")
     params = [p["name"] for p in fn["params"]]
     if len(params) != 2:
